@@ -294,3 +294,47 @@ Proof.
   destruct (member_equals_twin NO B Hleaf Htop Hk Hnodot others2 Hf2 key2 cfg hcfg2 ops2 h2 h2' twin HI2 Ho2 H2) as (s2 & t2 & G2 & E2 & M2).
   exists s1, s2. split; [exact G1|]. split; [exact G2|]. rewrite Et, E2 in E1. inversion E1; subst. congruence.
 Qed.
+
+Section Start.
+Context (NO : NumOps).
+Notation store := (store NO).
+Notation hexital := (hexital NO).
+Variable B : ind NO.
+Variable others : list (bool * string).
+
+(* any candle list is paired with itself: one append through the manager without options *)
+Lemma paired_refl (s : store) : PairedM NO B others s s.
+Proof.
+  destruct s as [|c s']; [apply PM_init|].
+  apply (PM_append NO B others {| tf := None; fillon := false; ha := false; lifespan := None |} [] [] (c :: s') (c :: s') (c :: s')); [apply PM_init| |]; reflexivity.
+Qed.
+
+(* registering B in a Hexital whose members so far are all "other" members establishes the
+   invariant: B's manager - an existing one or the one created for its timeframe - is paired
+   with itself, i.e. the twin starts from the candles that manager holds at that moment *)
+Theorem inv_after_attach (hcfg : mcfg) (h h' : hexital) (own : option (string * Z)) :
+  Forall (other_ok NO B others) (h_members NO h) ->
+  (own = None -> exists c s, alist_get "default" (h_mgrs NO h) = Some (c, s)) ->
+  hx_attach NO hcfg h B own = Ok h' ->
+  exists key cfg s, alist_get key (h_mgrs NO h') = Some (cfg, s) /\ Inv NO B others key cfg h' s.
+Proof.
+  intros Hm Hd H. unfold hx_attach in H. destruct own as [[key tfs]|].
+  - destruct (alist_get key (h_mgrs NO h)) as [[c s]|] eqn:G.
+    + inversion H; subst. cbn [h_mgrs h_members]. exists key, c, s. split; [exact G|]. split.
+      * exists (h_members NO h), []. auto.
+      * exists s. split; [exact G|apply paired_refl].
+    + unfold get_mgr in H. destruct (alist_get "default" (h_mgrs NO h)) as [[dc ds]|]; cbn [of_opt bind] in H; [|discriminate].
+      destruct (tasks NO _ _) as [stn|]; cbn [bind] in H; [|discriminate]. inversion H; subst. cbn [h_mgrs h_members].
+      eexists key, _, stn.
+      assert (GK : alist_get key (h_mgrs NO h ++ [(key, ({| tf := Some tfs; fillon := fillon hcfg; ha := ha hcfg; lifespan := lifespan hcfg |}, stn))]) =
+                   Some ({| tf := Some tfs; fillon := fillon hcfg; ha := ha hcfg; lifespan := lifespan hcfg |}, stn)).
+      { clear -G. induction (h_mgrs NO h) as [|[k' v'] l IH]; cbn [app alist_get] in *; [rewrite String.eqb_refl; reflexivity|].
+        destruct (String.eqb key k'); [discriminate|apply IH; exact G]. }
+      split; [exact GK|]. split.
+      * exists (h_members NO h), []. auto.
+      * exists stn. split; [exact GK|apply paired_refl].
+  - destruct (Hd eq_refl) as (c & s & G). inversion H; subst. cbn [h_mgrs h_members]. exists "default", c, s. split; [exact G|]. split.
+    + exists (h_members NO h), []. auto.
+    + exists s. split; [exact G|apply paired_refl].
+Qed.
+End Start.
